@@ -47,6 +47,7 @@ class Execution(object):
         self.audios = audios
         self.wait = wait
         self.events = []
+        self.obs = []              # observable events only (AudioObs.tla): backend calls, thread life, caller's calls
         self.players = []          # AudioThread objects in creation order
         self.io = None
         self.closed = False
@@ -120,6 +121,35 @@ class Execution(object):
             name = "write-fault"
         self.events.append({"proc": ts.tid, "op": name, "obj": tgt if ts.tid == 0 else 0,
                             "after": self.projection()})
+        self._observe(ts, kind, name, obj)
+
+    def _observe(self, ts, kind, name, obj):
+        """Projection on what a backend / the caller can see; no lock, flag or list of the library is named."""
+        b = self.backend
+        if kind == "open":
+            self.obs.append({"k": "open", "t": len(b.streams), "n": 0})
+        elif kind in ("stop_stream", "start_stream", "close", "write"):
+            t = b.streams.index(obj) + 1 if obj in b.streams else 0
+            if name == "write-fault":
+                self.obs.append({"k": "write-fault", "t": t, "n": 0})
+            elif kind == "write":
+                # which chunk of the played iterable these bytes are (0: none of them / wrong frame count)
+                exp = expected_bytes(self.audios[t - 1]) if 0 < t <= len(self.audios) else []
+                data, frames = obj.chunks[-1] if obj.chunks else (None, None)
+                pos = [i + 1 for i, c in enumerate(exp) if c == data]
+                n = 0
+                if frames == CHUNK and pos:
+                    want = sum(1 for e in self.obs if e["k"] == "write" and e["t"] == t) + 1
+                    n = want if want in pos else pos[0]
+                self.obs.append({"k": "write", "t": t, "n": n})
+            else:
+                self.obs.append({"k": "close_stream" if kind == "close" else kind, "t": t, "n": 0})
+        elif kind == "terminate":
+            self.obs.append({"k": "terminate", "t": 0, "n": 0})
+        elif kind == "start":
+            self.obs.append({"k": "start", "t": self.players.index(obj) + 1 if obj in self.players else 0, "n": 0})
+        elif kind == "end" and ts.tid != 0:
+            self.obs.append({"k": "end", "t": ts.tid, "n": 0})
 
     # -- the caller's thread ------------------------------------------------------------------------
     def _main(self):
@@ -129,18 +159,26 @@ class Execution(object):
             self.io = io
             for op in self.program:
                 if op[0] == "play":
-                    io.play(self.audios[len(self.players)], chunk_size=CHUNK)
+                    try:
+                        io.play(self.audios[len(self.players)], chunk_size=CHUNK)
+                        self.obs.append({"k": "ret-play", "t": 0, "n": 0})
+                    except RuntimeError:
+                        self.obs.append({"k": "ret-play", "t": 0, "n": 1})
+                        raise
                 elif op[0] == "pause":
                     self.players[op[1] - 1].pause()
                 elif op[0] == "resume":
                     self.players[op[1] - 1].play()
                 elif op[0] == "stop":
+                    self.obs.append({"k": "call-stop", "t": op[1], "n": 0})
                     self.players[op[1] - 1].stop()
                 elif op[0] == "close":
                     # close(), play() must raise; then the same again: the second close() (what leaving the
                     # with-block after an explicit close() does) finds `finished` set
                     for _ in range(2):
+                        self.obs.append({"k": "call-close", "t": 0, "n": 0})
                         io.close()
+                        self.obs.append({"k": "ret-close", "t": 0, "n": 0})
                         self.closed = True
                         self.alive_at_close = [bool(p.is_alive()) for p in self.players]
                         try:
@@ -148,6 +186,7 @@ class Execution(object):
                             self.post_play_raised = False
                         except RuntimeError:
                             self.post_play_raised = True
+                        self.obs.append({"k": "ret-play", "t": 0, "n": 1 if self.post_play_raised else 0})
         except schedmod.SchedAbort:
             raise
         except BaseException as ex:
@@ -172,6 +211,11 @@ class Execution(object):
         if left:
             raise tlc.MachineryError("scheduler could not unwind %d OS threads" % len(left))
         return self.result
+
+    def obs_record(self):
+        """The observation sequence for the property-level judge (spec/trace/AudioObsTrace.tla)."""
+        return {"np": len(self.audios), "chunks": [len(expected_bytes(a)) for a in self.audios],
+                "wait": bool(self.wait), "evs": list(self.obs)}
 
     # -- the property's own wording, checked on every execution ------------------------------------
     def monitors(self):
@@ -286,6 +330,12 @@ def m1(ctx):
                  ("AudioIO_sens_fault.cfg", ("temporal",))) \
         if ctx.thorough else (("AudioIO_qsens_stop.cfg", ("temporal",)), ("AudioIO_qsens_join.cfg", ("NoThreadAlive",)),
                               ("AudioIO_qsens_fault.cfg", ("temporal",)))
+    # the property-level specification on its own: its guards imply the promise read off its state
+    for cfg in ("AudioObs.cfg", "AudioObs_nowait.cfg"):
+        r = tlc.require_ok(tlc.run("AudioObs", cfg, coverage=False), "AudioObs " + cfg)
+        ctx.add_tlc(r, "AudioObs %s: property-level specification over observable events (invariants follow "
+                       "from its guards)" % cfg)
+    # the implementation-shaped model: its own invariants, liveness, and PROPERTY ObsRefined (refinement)
     for cfg in main_cfgs:
         r = tlc.run("AudioIO", cfg, coverage=True)
         tlc.require_ok(r, "AudioIO " + cfg, need_actions=("p1w", "p3", "p5", "p5h", "c7", "c8j", "st3", "pa2", "re2"))
@@ -395,27 +445,37 @@ def cover_paths(nodes, inits, edges):
 
 
 def script_choice(script, ex, errors):
+    """Follow the schedule of a spec behaviour.  When the code does not offer the scripted operation (the
+    implementation-shaped model does not describe it any more) the divergence is recorded and the run is completed
+    under a fair rotation, so that the property-level judgement still sees a whole execution."""
     pos = [0]
+    turn = [0]
+
+    def fallback(enabled):
+        turn[0] += 1
+        return sorted(enabled, key=lambda t: t.tid)[turn[0] % len(enabled)]
 
     def choose(s, enabled):
         for t in enabled:
             if t.tid == 0 and t.pending[0] in ("begin", "end"):     # the caller's own thread start/end
                 return t
+        if errors:
+            return fallback(enabled)
         if pos[0] >= len(script):
             errors.append(("extra-step", [(t.tid, t.pending[0]) for t in enabled]))
-            return None
+            return fallback(enabled)
         proc, kind = script[pos[0]]
         for t in enabled:
             if t.tid == proc:
                 name, _ = ex._name(*t.pending)
                 if name != kind:
                     errors.append(("op-mismatch", {"at": pos[0], "proc": proc, "spec": kind, "code": name}))
-                    return None
+                    return fallback(enabled)
                 pos[0] += 1
                 return t
         errors.append(("not-enabled", {"at": pos[0], "proc": proc, "spec": kind,
                                        "enabled": [(t.tid, ex._name(*t.pending)[0]) for t in enabled]}))
-        return None
+        return fallback(enabled)
     choose.pos = pos
     return choose
 
@@ -437,7 +497,8 @@ def m2(ctx, h, cfg, wait, limit=None):
     np_ = len(first["go"])
     nchunks = CHUNKS_OF[cfg]
     audios = [audio_for(i + 1, nchunks[i], i % 2 == 0) for i in range(np_)]
-    nbad = 0
+    nbad = nviol = 0
+    obs_runs = []
     for pi, path in enumerate(paths):
         sts = [nodes[n] for n in path]
         program, script, checkpoints = [], [], []
@@ -476,17 +537,22 @@ def m2(ctx, h, cfg, wait, limit=None):
                         detail = {"clause": "state-" + diff[0], "info": {"at": k, "op": script[k], "spec": cp,
                                                                         "code": e["after"]}}
                         break
-        mon = ex.monitors()
-        if detail is None and mon:
-            detail = {"clause": mon[0][0], "info": mon[0][1]}
+        info = {"cfg": cfg, "program": program, "wait": wait, "chunks": list(nchunks),
+                "schedule": ["%d:%s" % x for x in script]}
+        # what the property states, on this execution (whether or not the model still describes the code)
+        for clause, mdetail in ex.monitors():
+            nviol += 1
+            ctx.violation("C17:" + clause, dict(info, detail=mdetail, result=ex.result))
+        obs_runs.append((dict(info, result=ex.result), ex.obs_record()))
         if detail is not None:
+            # the code left the behaviour TLC enumerated: the implementation-shaped model is out of date (or the
+            # code is wrong in a way the property-level judgement of this same execution reports)
             nbad += 1
-            ctx.violation("C17:replay:%s" % detail["clause"],
-                          {"cfg": cfg, "program": program, "wait": wait, "chunks": list(nchunks),
-                           "schedule": ["%d:%s" % x for x in script], "detail": detail})
+            ctx.drift("C17:replay:%s" % detail["clause"], dict(info, detail=detail))
         else:
             ctx.traces += 1
-    ctx.log("M2 %s: %d behaviours replayed, %d non-conforming" % (cfg, len(paths), nbad))
+    judge_obs(ctx, obs_runs, "M2 " + cfg)
+    ctx.log("M2 %s: %d behaviours replayed, %d not following the model, %d monitor alarms" % (cfg, len(paths), nbad, nviol))
 
 
 INVISIBLE = {"mp2", "mp4", "st2", "cs2", "c1", "c3", "c4", "c8", "c8a", "ap2", "p1", "p1h", "p4", "p5h", "p9",
@@ -557,7 +623,7 @@ def run_rec(h, ops, cs=2):
     return res, out
 
 
-def rec_replay(ctx, h):
+def rec_replay(ctx, h, prefix="X06"):
     import graphcover
     d = tlc.scratch_dir("c17r")
     dot = os.path.join(d, "g.dot")
@@ -584,7 +650,7 @@ def rec_replay(ctx, h):
         ok = res == "done" and len(obs) == len(ops) and obs[-1][0] == st["ret"] and obs[-1][1] == want
         if not ok:
             nbad += 1
-            ctx.violation("C17:rec:%s" % ops[-1][0], {"calls": ops, "result": res, "expected_return": st["ret"],
+            ctx.violation("%s:rec:%s" % (prefix, ops[-1][0]), {"calls": ops, "result": res, "expected_return": st["ret"],
                                                       "expected_state": want, "observed": obs[-1] if obs else None})
     ctx.traces += len(edges)
     ctx.log("recording side: %d states, %d transitions replayed on the real AudioIO.record/RecStream, %d differ"
@@ -613,7 +679,7 @@ def check(ctx):
     nrand = 300 if not ctx.thorough else 4000
     m3(ctx, h, nrand)
     m3_fine(ctx, h, 30 if not ctx.thorough else 600)
-    rec_replay(ctx, h)
+    # (the recording side, spec/io/RecStream.tla, is the extension check X06: C17 states nothing about it)
 
 
 CONFIGS = [(3,), (2, 1), (0, 2), (2, 2), (1, 2, 1), (3, 0, 2)]
@@ -625,6 +691,7 @@ def m3(ctx, h, count):
     seen = set()
     nviol = 0
     configs = CONFIGS if ctx.thorough else [(3,), (2, 1), (1, 2, 1)]
+    obs_runs = []
     for k in range(count):
         nch = list(configs[k % len(configs)])
         np_ = len(nch)
@@ -656,8 +723,11 @@ def m3(ctx, h, count):
                                             "schedule": ["%d:%s" % (e["proc"], e["op"]) for e in ex.events]})
         key = (np_, tuple(nch), wait)
         batches.setdefault(key, []).append({"events": ex.events, "program": prog, "result": ex.result})
+        obs_runs.append(({"program": prog, "wait": wait, "chunks": nch, "result": ex.result,
+                          "schedule": ["%d:%s" % (e["proc"], e["op"]) for e in ex.events]}, ex.obs_record()))
     ctx.log("M3: %d executions, %d distinct schedules, %d monitor alarms" % (count, len(seen), nviol))
     ctx.extra["distinct_schedules"] = len(seen)
+    judge_obs(ctx, obs_runs, "M3")
     validate(ctx, batches)
 
 
@@ -667,6 +737,7 @@ def m3_fine(ctx, h, count):
     batches = {}
     nviol = 0
     configs = [(2,), (1, 1), (2, 1)]
+    obs_runs = []
     for k in range(count):
         nch = list(configs[k % len(configs)])
         np_ = len(nch)
@@ -685,7 +756,10 @@ def m3_fine(ctx, h, count):
                                                  "schedule": ["%d:%s" % (e["proc"], e["op"]) for e in ex.events]})
         batches.setdefault((np_, tuple(nch), wait), []).append({"events": ex.events, "program": prog,
                                                                 "result": ex.result})
+        obs_runs.append(({"program": prog, "wait": wait, "chunks": nch, "result": ex.result, "fine": True,
+                          "schedule": ["%d:%s" % (e["proc"], e["op"]) for e in ex.events]}, ex.obs_record()))
     ctx.log("fine-grained: %d executions with line-level pre-emption, %d monitor alarms" % (count, nviol))
+    judge_obs(ctx, obs_runs, "fine-grained")
     validate(ctx, batches, fine=True)
 
 
@@ -710,12 +784,31 @@ def validate(ctx, batches, fine=False):
         for tid, info in sorted(rej.items()):
             r = runs[tid - 1]
             l, clause = info[0], info[1]
-            ctx.violation("C17:trace:%s" % clause,
+            ctx.drift("C17:trace:%s" % clause,
                           {"program": r["program"], "wait": wait, "chunks": list(nch), "result": r["result"],
                            "rejected_at_event": l, "clause": clause,
                            "events_around": [(e["proc"], e["op"], e["obj"]) for e in r["events"][max(0, l - 6):l + 1]],
                            "state_after": r["events"][l - 1]["after"] if 0 < l <= len(r["events"]) else None})
-    ctx.log("trace validation: %d executions accepted by TLC" % ctx.traces)
+    ctx.log("trace validation against the implementation-shaped model: %d executions accepted so far" % ctx.traces)
+
+
+def judge_obs(ctx, runs, what):
+    """THE verdict on recorded executions: their observable events judged by the property-level specification
+    AudioObs (spec/io/AudioObsDef.tla), whatever the library does inside."""
+    if not runs:
+        return
+    recs = [r for _, r in runs]
+    bad = tracecheck.run_records(ctx, "AudioObsTrace", {}, recs, what="C17 observable events (%s) judged by AudioObs"
+                                 % what, chunk=2000)
+    for i, info in sorted(bad.items()):
+        meta, rec = runs[i - 1]
+        clause, at = info[0], info[1]
+        ctx.violation("C17:obs:%s" % clause,
+                      dict(meta, clause=clause, refused_event=rec["evs"][at - 1] if 0 < at <= len(rec["evs"]) else None,
+                           refused_at=at, observed=["%s%s%s" % (e["k"], ":%d" % e["t"] if e["t"] else "",
+                                                                "#%d" % e["n"] if e["k"] == "write" else "")
+                                                    for e in rec["evs"][:at]][-25:]))
+    ctx.log("%s: %d observation sequences judged by AudioObs, %d refused" % (what, len(recs), len(bad)))
 
 
 SAFETY = ("InOrderOnce", "Complete", "NoWriteWhenNotOpen", "TerminateAtMostOnce", "AllClosed", "TerminatedOnce",
